@@ -285,7 +285,7 @@ def check_C10(sc, v, tier, seed, replay):
                 # long messages (more than 255 octets, several keystream blocks) at fixed steps; the 4100-octet one in the thorough tier
                 plain = longs[(h + (0 if s == 2 else 3)) % (5 if tier == "quick" else 6)]
                 if tier == "quick" and s == 9 and h in (2, 5):
-                    plain = longs[5]      # more than 4096 octets (over 256 cipher blocks) once under NEA2 with each integrity algorithm
+                    plain, hdr = longs[5], 2      # more than 4096 octets (over 256 cipher blocks) once under NEA2 with each integrity algorithm
             lines.append({"ev": "Msg", "id": idn, "hist": h, "hdr": hdr, "skip": skip, "plain": plain})
             idn += 1
     skel = os.path.join(sc.work, "dlskel.ndjson")
